@@ -14,6 +14,7 @@ pub mod c14;
 pub mod c15;
 pub mod c16;
 pub mod c17;
+pub mod c19;
 pub mod c20;
 
 use crate::engine::DynProperty;
@@ -36,9 +37,10 @@ pub fn by_id(id: &str) -> Option<Box<dyn DynProperty>> {
         "C15" => Box::new(c15::C15),
         "C16" => Box::new(c16::C16),
         "C17" => Box::new(c17::C17::new()),
+        "C19" => Box::new(c19::C19::new()),
         "C20" => Box::new(c20::C20::new()),
         _ => return None,
     })
 }
 
-pub const IDS: &[&str] = &["C01", "C03", "C04", "C05", "C06", "C07", "C08", "C09", "C10", "C11", "C12", "C13", "C14", "C15", "C16", "C17", "C20"];
+pub const IDS: &[&str] = &["C01", "C03", "C04", "C05", "C06", "C07", "C08", "C09", "C10", "C11", "C12", "C13", "C14", "C15", "C16", "C17", "C19", "C20"];
